@@ -437,7 +437,7 @@ func (r *runner) runGen(o tlc.Opts) {
 	}
 	done := make(chan struct{})
 	go func() {
-		core.Parallel(6, ch, func(p []byte) {
+		core.Parallel(4, ch, func(p []byte) {
 			var l Line
 			if err := json.Unmarshal(p, &l); err != nil {
 				c.Broken("bad scenario line: " + err.Error())
@@ -525,15 +525,16 @@ func (d Driver) Run(c *core.Ctx) error {
 	}
 	r := &runner{c: c, featCnt: map[string]int64{}}
 
-	// 1. model level: two independent exact winding computations agree, parity of crossings, far field, simple contours
-	c.TLC(tlc.Opts{Module: "Query", Config: cfg(3, 4, 1, "polyrand", `{"L"}`, c.Pick(60, 400), true), Seed: c.Seed, Coverage: c.Thorough()}, true)
-	c.TLC(tlc.Opts{Module: "Query", Config: cfg(c.Pick(4, 10), 3, 1, "curves", `{"L","A","Q"}`, c.Pick(40, 120), true), Seed: c.Seed, Timeout: 20 * time.Minute}, true)
+	// 1. model level: two independent exact winding computations agree, parity of crossings, far field, simple
+	// contours (run concurrently with the generation jobs below)
+	var jobs []tlc.Opts
+	mc1 := tlc.Opts{Module: "Query", Config: cfg(3, 4, 1, "polyrand", `{"L"}`, c.Pick(60, 400), true), Seed: c.Seed, Coverage: c.Thorough(), Workers: 4, HeapGB: 3}
+	mc2 := tlc.Opts{Module: "Query", Config: cfg(c.Pick(4, 10), 3, 1, "curves", `{"L","A","Q"}`, c.Pick(30, 120), true), Seed: c.Seed, Timeout: 20 * time.Minute, Workers: 4, HeapGB: 3}
 
 	// 2. spec -> code (the generation runs are independent: three TLC processes at a time)
 	all := `{"L","A","Q","C"}`
-	var jobs []tlc.Opts
 	gen := func(n, k, nc int, mode, kinds string, num int, seedOff int64) {
-		jobs = append(jobs, tlc.Opts{Module: "Query", Config: cfg(n, k, nc, mode, kinds, num, false), Seed: c.Seed + seedOff, Workers: 5, HeapGB: 3, Timeout: 30 * time.Minute})
+		jobs = append(jobs, tlc.Opts{Module: "Query", Config: cfg(n, k, nc, mode, kinds, num, false), Seed: c.Seed + seedOff, Workers: 4, HeapGB: 3, Timeout: 30 * time.Minute})
 	}
 	if c.Thorough() {
 		gen(2, 4, 1, "polyall", `{"L"}`, 0, 0) // all 6561 contours of <=4 points on 3x3
@@ -547,14 +548,23 @@ func (d Driver) Run(c *core.Ctx) error {
 		gen(20, 3, 1, "curves", `{"L","A"}`, 150, 7)
 	} else {
 		gen(2, 3, 1, "polyall", `{"L"}`, 0, 0) // all 729 triangles (incl. degenerate) on 3x3
-		gen(2, 4, 1, "polyrand", `{"L"}`, 700, 0)
-		gen(4, 5, 2, "polyrand", `{"L"}`, 100, 1)
-		gen(10, 3, 1, "curves", `{"L","A"}`, 90, 3)
-		gen(6, 3, 1, "curves", `{"L","Q","C"}`, 150, 4)
-		gen(10, 3, 2, "curves", all, 40, 6)
+		gen(2, 4, 1, "polyrand", `{"L"}`, 400, 0)
+		gen(4, 5, 2, "polyrand", `{"L"}`, 70, 1)
+		gen(10, 3, 1, "curves", `{"L","A"}`, 60, 3)
+		gen(6, 3, 1, "curves", `{"L","Q","C"}`, 110, 4)
+		gen(10, 3, 2, "curves", all, 30, 6)
 	}
-	sem := make(chan struct{}, 3)
+	sem := make(chan struct{}, 4)
 	var wg sync.WaitGroup
+	for _, o := range []tlc.Opts{mc1, mc2} {
+		wg.Add(1)
+		sem <- struct{}{}
+		go func(o tlc.Opts) {
+			defer wg.Done()
+			c.TLC(o, true)
+			<-sem
+		}(o)
+	}
 	for _, j := range jobs {
 		wg.Add(1)
 		sem <- struct{}{}
